@@ -32,6 +32,8 @@ class LayoutEval(SymEval):
     into_shape_with_order (row-major), t(), invert_axis(Axis(k)), assign into zeros(raw_dim), flatten."""
     PASS = {"view", "to_owned", "unwrap", "iter", "cloned", "collect", "into_iter", "expect", "to_vec", "copied", "clone"}
 
+    alternatives = ()
+
     def lay_of(self, v):
         return v if isinstance(v, (Lay, Flat)) else None
 
@@ -122,12 +124,29 @@ class LayoutEval(SymEval):
             if c[1]:
                 return self.eval(n["t"], env)
             return self.eval(n["e"], env) if "e" in n else ("tuple", [])
+        # data-dependent branch: only the "special-case early return" shape is modelled - the returned layout is recorded as an
+        # alternative result under its condition and the main path continues
+        if "e" not in n:
+            try:
+                self.eval(n["t"], dict(env))
+            except EarlyReturn as r:
+                self.alternatives.append((c, r.value))
+                return ("tuple", [])
         raise Unsupported("data-dependent branch in a layout function")
+
+    def e_ret(self, n, env):
+        raise EarlyReturn(self.eval(n["e"], env) if "e" in n else None)
+
+
+class EarlyReturn(Exception):
+    def __init__(self, value):
+        self.value = value
 
 
 def layout_of(F, fn, backwards):
     b = F.body(fn)
     ev = LayoutEval(F, mode="int")
+    ev.alternatives = []
     C, LEN = var("C"), var("len")
     env = {}
     ev.bind(b.params[0], ("struct", "Interleaver", {"columns": C, "read_rows_backwards": ("bool", backwards)}), env)
@@ -139,6 +158,53 @@ def layout_of(F, fn, backwards):
     if not isinstance(out, Flat):
         raise AnalysisError("%s: result is not a flattened 2-D array" % fn)
     return out.lay, ev
+
+
+def _disjuncts(c):
+    a = single_atom(c) if isinstance(c, Poly) else None
+    if a and atom_fn(a) == "or":
+        return _disjuncts(atom_args(a)[0]) + _disjuncts(atom_args(a)[1])
+    return [c]
+
+
+def check_alternatives(ck, key, ev, spec_src, spec_pos, D0, D1, site, swap=False):
+    """Special-case early returns (`if cond { return x }`) recorded by the layout evaluator: under each case of the condition the
+    returned layout must coincide with the specified permutation. Only returns of the unchanged input under conditions made of
+    `X <= 1`, `X < 2`, `X == 0/1` over the grid dimensions are modelled; anything else is unreadable."""
+    from ..symx import subst_atom
+    for i, (cond, val) in enumerate(ev.alternatives):
+        ident = isinstance(val, Lay) and len(val.shape) == 1 and val.f(var("p")) == var("p")
+        if not ident:
+            raise AnalysisError("%s: early return of something other than the unchanged input" % key)
+        for d in _disjuncts(cond):
+            a = single_atom(d) if isinstance(d, Poly) else None
+            cases = None
+            if a and atom_fn(a) in ("le", "lt", "eq") and len(atom_args(a)) == 2:
+                x, y = atom_args(a)
+                if atom_fn(a) == "le" and y == num(1):
+                    X, cases = x, [0, 1]
+                elif atom_fn(a) == "lt" and y == num(2):
+                    X, cases = x, [0, 1]
+                elif atom_fn(a) == "eq" and (y.const_value() in (0, 1) if isinstance(y, Poly) else False):
+                    X, cases = x, [int(y.const_value())]
+                elif atom_fn(a) == "eq" and (x.const_value() in (0, 1) if isinstance(x, Poly) else False):
+                    X, cases = y, [int(x.const_value())]
+            if cases is None or single_atom(X) is None:
+                raise AnalysisError("%s: early-return condition %r is outside the modelled shapes" % (key, d))
+            xa = single_atom(X)
+            which = 0 if X == D0 else (1 if X == D1 else None)
+            if which is None:
+                raise AnalysisError("%s: early-return condition is not about a grid dimension: %r" % (key, X))
+            for cv in cases:
+                if cv == 0:
+                    continue       # empty grid: nothing to permute
+                # dimension `which` equals 1: its index is 0
+                i0, i1 = (num(0), var("c")) if which == 0 else (var("r"), num(0))
+                src = subst_atom(spec_src(i0, i1), xa, num(1))
+                pos = subst_atom(spec_pos(i0, i1), xa, num(1))
+                ck.inst("I1", "%s:special-case#%d:%s=1" % (key, i + 1, "dim%d" % which), src == pos, site,
+                        "early return of the unchanged input when grid dimension %d is 1: the specified permutation there maps position %r to input index %r "
+                        "(must be the identity for the shortcut to be exact)" % (which, pos, src))
 
 
 def run(ck, F, tier):
@@ -167,9 +233,14 @@ def run(ck, F, tier):
         want = (C - num(1) - c) * Rr + r if bw else c * Rr + r
         ck.inst("I1", "interleave:" + tag, shape_ok and got == want, F.body(IL + "interleave").span,
                 "output grid %r, out[r*C+c] = in[%r] ; required grid (len/C, C) and in[%r]" % (lay.shape, got, want))
+        check_alternatives(ck, "interleave:" + tag, ev, lambda rr, cc, bw=bw: ((C - num(1) - cc) * Rr + rr if bw else cc * Rr + rr), lambda rr, cc: rr * C + cc,
+                           Rr, C, F.body(IL + "interleave").span)
         ck.inst("I1", "interleave:%s:assert-divisible" % tag, len(ev.asserts) == 1, F.body(IL + "interleave").span,
                 "length is asserted divisible by the column count before reshaping (%d assert)" % len(ev.asserts), trivial=True)
         dl, ev2 = layout_of(F, IL + "deinterleave", bw)
+        # deinterleave spec: out[c*R + r] = in[r*C + c'] with c' = c (forward) or C-1-c (backward), grid (C, R)
+        check_alternatives(ck, "deinterleave:" + tag, ev2, lambda cc, rr, bw=bw: rr * C + ((C - num(1) - cc) if bw else cc), lambda cc, rr: cc * Rr + rr,
+                           C, Rr, F.body(IL + "deinterleave").span, swap=True)
         dshape_ok = dl.shape == (C, Rr)
         # deinterleave: y[c*R + r] = x[dl.f(c, r)] ; x = interleave(in): x[r'*C + c'] = in[lay.f(r', c')]
         comp = None
